@@ -389,6 +389,130 @@ def classify(shrunk, model_report, results, projected=None):
 
 
 # ------------------------------------------------------------------------------------------------
+# shortcut decisions: the rules modelled in coq/C04/Deep2_C04.v against the registers named by boa's bytecode
+
+def gen_operand(rng, depth):
+    """-> (sexp for the model, JavaScript) over the locals a (0) and b (1)"""
+    x = rng.random()
+    if depth <= 0 or x < 0.35:
+        k = rng.randrange(4)
+        if k == 0:
+            return "(0)", str(rng.randrange(0, 9))
+        if k == 1:
+            return "(1)", "this"
+        v = rng.randrange(2)
+        return "(2 %d)" % v, rng.choice(["%s", "%s", "(%s)"]) % "ab"[v]
+    if x < 0.7:
+        v = rng.randrange(2)
+        sx, js = gen_operand(rng, depth - 1)
+        form = rng.randrange(3)
+        if form == 0:
+            return "(3 %d %s)" % (v, sx), "(%s = %s)" % ("ab"[v], js)
+        if form == 1:
+            return "(3 %d %s)" % (v, sx), "(%s += %s)" % ("ab"[v], js)
+        return "(3 %d (0))" % v, "(%s%s)" % ("ab"[v], rng.choice(["++", "--"]))
+    (s1, j1), (s2, j2) = gen_operand(rng, depth - 1), gen_operand(rng, depth - 1)
+    return "(4 %s %s)" % (s1, s2), "(%s %s %s)" % (j1, rng.choice(["+", "-", "*", "<", "&", "==", "**", ">="]), j2)
+
+
+def dump_blocks(trace_json):
+    """verif_dump lines -> {block name: [instruction text]}"""
+    blocks, cur = {}, None
+    for l in json.loads(trace_json):
+        if l.startswith("block "):
+            m = re.search(r"name=(.*)$", l)
+            cur = (m.group(1) if m else "") + "#%d" % len(blocks)
+            blocks[cur] = []
+        elif l.startswith("ins ") and cur is not None:
+            blocks[cur].append(l.split(" ", 4)[4])
+    return blocks
+
+
+def reg_of(field, ins):
+    m = re.search(field + r": RegisterOperand\((\d+)\)", ins)
+    return int(m.group(1)) if m else None
+
+
+def shortcut_decisions(run, js_bin, n_ops):
+    """-> (list of disagreements, stats)"""
+    probes = []           # (id, kind, model line, js, aux)
+    for k in range(n_ops):
+        sx, js = gen_operand(run.rng, 3)
+        op = run.rng.choice(["+", "-", "*", "<", "<=", "&", "|", "===", "%", ">>"])
+        probes.append(("op%d" % k, "op", "dec-op op%d (4 (2 0) %s)" % (k, sx),
+                       "function f(){ let a = 1; let b = 2; return a %s %s; }" % (op, js), None))
+    for k, opn in enumerate(["++", "--"]):
+        probes.append(("upd%d" % k, "upd", None, "function f(){ let a = 1; let q = a%s; return q; }" % opn, None))
+    k = 0
+    for loop in ("while", "for", "do"):
+        for under_with in (0, 1):
+            for lhs_eff in (0, 1):
+                lhs = "(i = i + 0)" if lhs_eff else "i"
+                body = {"while": "while (%s < c) { i++; }", "for": "for (; %s < c; ) { i++; }", "do": "do { i++; } while (%s < c);"}[loop] % lhs
+                if under_with:
+                    body = "with ({}) { %s }" % body       # (not a name: no binding is read in front of the loop unless hoisted)
+                js = "function outer(){ const c = 3; return function inner(o){ let i = 0; %s return i; }; }" % body
+                probes.append(("h%d" % k, "hoist", "dec-hoist h%d %d %d %d" % (k, lhs_eff, 1 if loop == "do" else 0, under_with), js, None))
+                k += 1
+    out = by_id(run_batch([js_bin], ["cfg dump=1"] + ["run %s %s" % (p[0], A.escape_line(p[3])) for p in probes]))
+    BIN = re.compile(r"^(\w+) \{ dst: RegisterOperand\(\d+\), lhs: RegisterOperand\((\d+)\), rhs: RegisterOperand\((\d+)\) \}")
+    mlines, boa = [], {}
+    bad = []
+    for (pid, kind, mline, js, _aux) in probes:
+        o = out.get(pid)
+        if o is None or o[0] != "ok":
+            bad.append({"probe": js, "boa": o, "model": None, "what": "no code-block dump"})
+            continue
+        blocks = dump_blocks(o[1])
+        if kind in ("op", "upd"):
+            ins = next((v for name, v in blocks.items() if name.startswith("f#")), [])
+            if not ins:
+                bad.append({"probe": js, "boa": None, "model": None, "what": "block f not found"})
+                continue
+            ra = reg_of("dst", ins[0])
+            if kind == "op":
+                bins = [BIN.match(i) for i in ins]
+                bins = [m for m in bins if m]
+                if not bins or ra is None:
+                    bad.append({"probe": js, "boa": ins[:12], "model": None, "what": "no binary instruction"})
+                    continue
+                boa[pid] = "0" if int(bins[-1].group(2)) == ra else "1"
+                mlines.append(mline)
+            else:
+                seq = None
+                for i1, i2 in zip(ins, ins[1:]):
+                    if i1.startswith("Move ") and (i2.startswith("Inc ") or i2.startswith("Dec ")) and reg_of("src", i1) == ra:
+                        seq = "Move %d %d;Inc %d %d" % (reg_of("dst", i1), reg_of("src", i1), reg_of("dst", i2), reg_of("src", i2))
+                        mlines.append("dec-upd %s %d %d" % (pid, ra, reg_of("dst", i1)))
+                boa[pid] = seq
+                if seq is None:
+                    bad.append({"probe": js, "boa": ins[:12], "model": None, "what": "no Move;Inc/Dec pair on the local"})
+        else:
+            ins = next((v for name, v in blocks.items() if any(i.startswith("IncrementLoopIteration") for i in v)), None)
+            if ins is None:
+                bad.append({"probe": js, "boa": None, "model": None, "what": "loop block not found"})
+                continue
+            first = next(k_ for k_, i in enumerate(ins) if i.startswith("IncrementLoopIteration"))
+            boa[pid] = "1" if any(re.match(r"GetName", i) for i in ins[:first]) else "0"
+            mlines.append(mline)
+    model = by_id(run_batch([MODEL_BIN], mlines)) if mlines else {}
+    by = {p[0]: p for p in probes}
+    n = 0
+    for pid, b in boa.items():
+        if b is None:
+            continue
+        m = model.get(pid, ["missing"])[0]
+        n += 1
+        run.count(("decision", by[pid][3]))
+        if m != b:
+            bad.append({"probe": by[pid][3], "boa": b, "model": m,
+                        "what": {"op": "left operand: 1 = copied to a temporary, 0 = the local's register is the operand",
+                                 "upd": "postfix update lowering", "hoist": "1 = const operand read in front of the loop"}[by[pid][1]]})
+    return bad, {"probes": len(probes), "compared": n, "operand_probes": n_ops,
+                 "copied": sum(1 for p, b in boa.items() if p.startswith("op") and b == "1"),
+                 "direct": sum(1 for p, b in boa.items() if p.startswith("op") and b == "0"),
+                 "hoisted": sum(1 for p, b in boa.items() if p.startswith("h") and b == "1")}
+
 
 def build_model():
     rc, out, err = vlib.sh(["sh", os.path.join(vlib.OCAML, "C04", "build.sh")], timeout=900)
@@ -589,7 +713,7 @@ def main():
         if m is None or m[0] != "ok":
             corr_bad.append({"id": i, "js": t, "diffs": ["model failed: %r" % (m,)]})
             continue
-        rep = {"honest": m[2], "wf": m[3], "ev_ok": m[4], "occ_ok": m[5], "reach_ok": m[6]}
+        rep = {"honest": m[2], "wf": m[3], "ev_ok": m[4], "occ_ok": m[5], "reach_ok": m[6], "sem_hyp": m[7] if len(m) > 7 else "?"}
         model_reports[i] = rep
         if rep["reach_ok"] == "0":
             stats["model_reach_not_ok"] += 1
@@ -604,6 +728,9 @@ def main():
             diffs.append("model: a contains_direct_eval flag is not truthful on this program (theorem collect_flags_truthful / model inconsistency)")
         if rep["ev_ok"] != "1":
             diffs.append("model: eval_entered_scopes_escape's conclusion fails on this program")
+        if rep["sem_hyp"] != "1":
+            diffs.append("model: the hypothesis sem_hyp of local_single_activation (decreasing outer pointers, skeleton laid out on the table, "
+                         "global root with escaping bindings) is false on this program")
         if rep["reach_ok"] != "1":
             diffs.append("analysis defect: a non-global binding that the code of a direct eval can name stays a register (eval_reach_ok = false)")
         run.count(("flags", t), nontrivial=nontrivial[i])
@@ -612,6 +739,18 @@ def main():
         elif len(run.cov["samples"]) < 2:
             run.sample({"case": t[:400], "boa_scopes": b[1][:300], "model_scopes": m[1][:300], "model_report": rep})
     run.cov["flag_correspondence"] = dict(stats, wall_s=round(time.time() - t0, 1), mismatches=len(corr_bad))
+
+    # (a') shortcut decisions of the bytecompiler vs the rules of Deep2_C04.v
+    dec_bad = []
+    if model_ok:
+        t0 = time.time()
+        dec_bad, dstats = shortcut_decisions(run, paths["js"], 60 if run.quick else 400)
+        run.cov["shortcut_decisions"] = dict(dstats, mismatches=len(dec_bad), wall_s=round(time.time() - t0, 1))
+        for d in dec_bad[:3]:
+            run.violation({"kind": "correspondence-broken", "input": d["probe"], "detail": d,
+                           "obligation": "decision of compile_expr_operand / compile_update / try_hoist_loop_condition read off the code-block dump "
+                                         "= the rule modelled in coq/C04/Deep2_C04.v (snapshot_new / postfix_code_new / hoist_ok_new)",
+                           "how_to_rerun": "printf 'cfg dump=1\\nrun x <program>\\n' | harness/target/debug/js"}, found_input=False)
 
     # (b) 16 subsets + JSRef
     t0 = time.time()
